@@ -227,73 +227,95 @@ def case_size(case):
 # one shard = one pool task
 # ---------------------------------------------------------------------------------------------------
 def shard_worker(task):
-    shard, tier, deep, seed = task
+    shards, tier, deep, seed = task
     acc = Acc()
     workdir = tempfile.mkdtemp(prefix="c17w", dir=scratch_dir())
     try:
-        _shard(acc, workdir, shard, tier, deep, seed)
+        _batch(acc, workdir, shards, tier, deep, seed)
     finally:
         shutil.rmtree(workdir, ignore_errors=True)
     return acc
 
 
-def _shard(acc, workdir, shard, tier, deep, seed):
-    fam = C.FAMILIES[shard[0]]
+def batch_cases(shards, tier):
+    cases = []
+    for sh in shards:
+        cases += C.FAMILIES[sh[0]].gen(sh, tier)
+    return cases
+
+
+def _batch(acc, workdir, shards, tier, deep, seed):
+    """one child process runs the cases of all shards of the batch; it is restarted after each death"""
     mode = "deep" if deep else "plain"
+    label = "%s..(%d shards)" % (short(list(shards[0])), len(shards))
     start, skip, deaths = 0, [], 0
     cases = None
     while True:
-        job = {"seed": seed, "tier": tier, "deep": bool(deep), "shard": list(shard), "cases": None, "start": start,
-               "skip": skip}
-        rc, res = run_child(workdir, job, 3600)
+        job = {"seed": seed, "tier": tier, "deep": bool(deep), "shards": [list(sh) for sh in shards], "cases": None,
+               "start": start, "skip": skip}
+        rc, res = run_child(workdir, job, 7200)
         if res is not None:
-            merge_result(acc, res, shard, mode)
+            merge_result(acc, res, shards, mode)
             if rc != 0:
-                acc.error("child of shard %s wrote a result but exited with %r" % (short(list(shard)), rc))
+                acc.error("child of batch %s wrote a result but exited with %r" % (label, rc))
             break
         # the child died: which case was it in?
         idx = read_progress(workdir)
         if cases is None:
-            cases = fam.gen(shard, tier)
+            cases = batch_cases(shards, tier)
         if idx is None or idx < start or idx >= len(cases):
-            acc.error("child of shard %s (%s) died without usable progress information (rc=%r, progress=%r): %s"
-                      % (short(list(shard)), mode, rc, idx, tail(workdir)))
+            acc.error("child of batch %s (%s) died without usable progress information (rc=%r, progress=%r): %s"
+                      % (label, mode, rc, idx, tail(workdir)))
             break
         kind, site, detail = diagnose(workdir, rc)
         case = cases[idx]
         report_death(acc, case, deep, tier, seed, kind, site, detail)
         acc.count("child_deaths")
         acc.count("evaluations")
+        counted = start
+        try:
+            with open(os.path.join(workdir, "result.json.partial")) as fh:
+                part = json.load(fh)
+            merge_result(acc, part, shards, mode)
+            counted = max(start, int(part["next_idx"]))
+        except Exception:  # noqa
+            pass
+        # cases between the last checkpoint and the death did run, but their statistics died with the child
+        acc.count("cases_run_but_not_counted", idx - counted)
         acc.seen("death_kinds", kind)
         deaths += 1
         if kind not in NOT_VIOLATIONS:
-            skip.append(fam.group(case))      # one death per entry point and shard is enough; go on with the others
+            skip.append(C.FAMILIES[case[0]].group(case))  # one death per entry point and batch; go on with the others
         start = idx + 1
         if deaths >= MAX_DEATHS_PER_SHARD:
-            acc.cap("shard %s (%s): %d child deaths, remaining cases from index %d not executed"
-                    % (short(list(shard)), mode, deaths, start))
+            acc.cap("batch %s (%s): %d child deaths, remaining cases from index %d not executed" % (label, mode, deaths, start))
             break
-    acc.seen("shards_done", (shard, mode))
+    for sh in shards:
+        acc.seen("shards_done", (sh, mode))
 
 
-def merge_result(acc, res, shard, mode):
+def merge_result(acc, res, shards, mode):
     acc.count("evaluations", res["ran"])
     acc.count("cases_%s_mode" % mode, res["ran"])
-    acc.count("_fam/%s" % shard[0], res["ran"])
+    for f, n in res["fam_counts"].items():
+        acc.count("_fam/%s" % f, n)
+    acc.count("_cw/%s" % mode, res["wall"])
+    acc.count("cases_skipped_after_a_death_of_the_same_entry_point", res.get("skipped", 0))
     acc.count("nontrivial", res.get("nontrivial", 0))
+    shard = shards[0]
     if res.get("stopped_at") is not None:
-        acc.cap("shard %s stopped at case %s (time limit)" % (short(list(shard)), res["stopped_at"]))
+        acc.cap("batch %s stopped at case %s (time limit)" % (short(list(shard)), res["stopped_at"]))
     for k, v in res["outcomes"].items():
         grp, out = k.split("|", 1)
         cls = out if not out.startswith("ret-shape") else "ret-shape"
         acc.seen("behaviour", (grp, cls))
         if out.startswith("ok"):
             acc.count("outcome_ok", v)
-            acc.seen("groups_ok", (shard[0], grp))
+            acc.seen("groups_ok", grp)
         elif out.startswith("exc:"):
             acc.count("outcome_python_exception", v)
             acc.seen("exc_types", out[4:])
-        acc.seen("groups", (shard[0], grp))
+        acc.seen("groups", grp)
     for k, (n, msg, case) in res["exceptions"].items():
         grp, name, site = k.split("|")
         if name not in ("ValueError", "TypeError", "OverflowError", "ZeroDivisionError", "CCMMessageTooLongError", "KeyError",
@@ -311,7 +333,7 @@ def merge_result(acc, res, shard, mode):
         for k, v in res["deep_stats"].items():
             acc.count("deep_" + k, v)
     if res["findings"]:
-        cases = C.FAMILIES[shard[0]].gen(shard, res["tier"])
+        cases = batch_cases(shards, res["tier"])
         for f in res["findings"]:
             case = cases[f["idx"]]
             grp = C.FAMILIES[case[0]].group(case)
@@ -326,24 +348,43 @@ def merge_result(acc, res, shard, mode):
                           {"case": list(case), "deep": mode == "deep", "tier": res["tier"], "seed": res["seed"]},
                           size=case_size(case))
     if len(acc.samples) < 2 and res["ran"]:
-        acc.sample({"shard": list(shard), "mode": mode, "cases": res["ran"], "outcomes": dict(list(res["outcomes"].items())[:6]),
+        acc.sample({"first_shard_of_batch": list(shard), "mode": mode, "cases": res["ran"], "outcomes": dict(list(res["outcomes"].items())[:6]),
                     "native_calls": dict(list(res["counts"].items())[:8])})
 
 
 # ---------------------------------------------------------------------------------------------------
-def all_tasks(tier, seed):
-    tasks = []
+def all_tasks(tier, seed, workers):
+    """-> (tasks, planned cases).  Shards are packed (longest processing time first) into batches, one child each."""
+    items = []
+    planned = 0
     for name, fam in C.FAMILIES.items():
         for sh in fam.shards(tier):
             n = len(fam.gen(sh, tier))
             if not n:
                 continue
             for deep in (False, True):
-                if name == "misc" and sh[1] == "cpuid" and deep:
+                if deep and name == "misc" and sh[1] == "cpuid":
                     continue
-                tasks.append((n * (1.4 if deep else 1.0) * WEIGHT.get(name, 1.0), (sh, tier, deep, seed), n))
+                if deep and name == "life" and tier != "thorough":
+                    continue                  # object lifetimes do not depend on where the buffers live
+                items.append((n * (1.4 if deep else 1.0) * WEIGHT.get(name, 1.0) + 4000, sh, deep, n))
+                planned += n
+    items.sort(key=lambda t: (-t[0], repr(t[1])))
+    nb = {False: max(3 * workers, 40), True: max(3 * workers, 40)}
+    if tier == "thorough":
+        nb = {False: 160, True: 160}
+    bins = {d: [[0.0, []] for _ in range(nb[d])] for d in (False, True)}
+    for cost, sh, deep, n in items:
+        b = min(bins[deep], key=lambda x: x[0])
+        b[0] += cost
+        b[1].append(sh)
+    tasks = []
+    for deep in (False, True):
+        for cost, shs in bins[deep]:
+            if shs:
+                tasks.append((cost, (tuple(shs), tier, deep, seed)))
     tasks.sort(key=lambda t: -t[0])
-    return tasks
+    return [t[1] for t in tasks], planned
 
 
 WEIGHT = {"life": 6.0, "modexp": 8.0, "ec": 40.0, "aead": 2.5, "blk": 1.3, "hash": 1.3, "misc": 0.6, "ctor": 2.0, "stream": 0.7}
@@ -357,9 +398,9 @@ def run(ctx):
     if os.environ.get("LD_PRELOAD", "") != asan_runtime():
         ctx.assume("driver started without the ASan runtime preloaded; children are started with it explicitly")
     tier = ctx.tier
-    tasks = all_tasks(tier, ctx.seed)
-    planned = sum(t[2] for t in tasks)
-    ctx.pmap(shard_worker, [t[1] for t in tasks])
+    tasks, planned = all_tasks(tier, ctx.seed, ctx.workers)
+    nshards = sum(len(t[0]) for t in tasks)
+    ctx.pmap(shard_worker, tasks)
     a = ctx.acc
     d = a.distinct
     # ---- native call accounting ------------------------------------------------------------------
@@ -381,12 +422,16 @@ def run(ctx):
                 "native calls were counted in only %d of %d extension modules (not reached: %s)"
                 % (len(libs_reached), len(all_libs), not_loaded))
     deaths = a.n.get("child_deaths", 0)
-    if not deaths:
+    accounted = a.n.get("evaluations", 0) + a.n.get("cases_run_but_not_counted", 0) + \
+        a.n.get("cases_skipped_after_a_death_of_the_same_entry_point", 0)
+    ctx.require(accounted == planned or bool(a.caps), "accounted for %d cases, planned %d" % (accounted, planned))
+    if not deaths and not a.caps:
         ctx.require(a.n.get("evaluations", 0) == planned, "executed %d cases, planned %d" % (a.n.get("evaluations", 0), planned))
-    ctx.require(len(d.get("shards_done", ())) == len(tasks), "%d of %d shard tasks completed" % (len(d.get("shards_done", ())), len(tasks)))
+    ctx.require(len(d.get("shards_done", ())) == nshards, "%d of %d shards completed" % (len(d.get("shards_done", ())), nshards))
     ctx.require(a.n.get("outcome_ok", 0) > a.n.get("evaluations", 0) // 3, "fewer than a third of the cases completed normally")
     ctx.require(a.n.get("outcome_python_exception", 0) > 1000, "illegal lengths were (almost) never refused")
-    ctx.require({"ValueError", "TypeError"} <= set(d.get("exc_types", ())), "ValueError and TypeError not both observed")
+    ctx.require("ValueError" in d.get("exc_types", ()) and len(d.get("exc_types", ())) >= 2,
+                "expected ValueError and at least one other exception class, saw %s" % sorted(d.get("exc_types", ())))
     groups = set(d.get("groups", ()))
     silent = sorted(g for g in groups if g not in d.get("groups_ok", ()))
     ctx.require(not silent, "entry points on which no case ever completed normally: %s" % silent[:8])
@@ -399,7 +444,9 @@ def run(ctx):
         "behaviour_classes": len(d.get("behaviour", ())),
         "exhaustive": not a.caps,
         "cases_planned": planned,
-        "shard_tasks": len(tasks),
+        "shards": nshards,
+        "child_batches": len(tasks),
+        "child_cpu_s": {k[4:]: round(v, 1) for k, v in a.n.items() if k.startswith("_cw/")},
         "cases_per_family_both_modes": fams,
         "entry_points_python_level": len(groups),
         "native_functions_declared_by_the_python_layer": len(declared),
